@@ -65,6 +65,12 @@ type ArchiveDecoder struct {
 	last interface{}
 }
 
+// validFilename returns true if name can be used as the name of an entry in
+// a directory: not empty, not "." or "..", and without path separators.
+func validFilename(name string) bool {
+	return name != "" && name != "." && name != ".." && !strings.ContainsRune(name, '/')
+}
+
 // NewArchiveDecoder initializes a decoder for a catar archive.
 func NewArchiveDecoder(r io.Reader) ArchiveDecoder {
 	return ArchiveDecoder{d: NewFormatDecoder(r), dir: "."}
@@ -142,6 +148,11 @@ loop:
 			if entry != nil { // Store and come back to it in the next iteration
 				a.last = c
 				break loop
+			}
+			// A filename element names a single directory entry. Anything else could
+			// make the entry end up outside the directory that's being unpacked into.
+			if !validFilename(d.Name) {
+				return nil, InvalidFormat{fmt.Sprintf("invalid filename '%s' in archive", d.Name)}
 			}
 			name = d.Name
 		case FormatGoodbye: // This will effectively be a "cd .."
